@@ -3,14 +3,20 @@
   (tools/extract_render.py → Extracted/RenderSrc.lean).  Proved in general (Lemmas/RenderSrcA.lean, RenderSrcB.lean), for every string
   library whose encoding round-trips, every view (members, title, flags, the clock `now`, style texts) and task description: the network
   label (quotes removed, both braces escaped), the whole network source (one edge per predecessor, Start edges, style lines) = the model's
-  `networkSrc`; the Gantt task state (milestone / done / active) and the Gantt task line = the model's `stateOf` / `ganttLine`.  The
-  Gantt `__src` (title, weekends, tick interval, the grouping into sections) is tied by kernel-evaluated runs of the translated program
-  on concrete views (Lemmas/RenderSrcCheck.lean, RenderSrcCheckB.lean - imported here, so a translated source that no longer reproduces
-  them breaks this module): tests at the level of the kernel, not theorems about every input.  The DHTMLX renderer, `to_html` and the
-  templates are not translated.
+  `networkSrc`; the Gantt task state (milestone / done / active), the Gantt task line and the whole Gantt source (`__src`: title, weekends,
+  tick interval, grouping into sections in first-occurrence order - Lemmas/RenderSrcC0.lean, RenderSrcC.lean) = the model's `stateOf` /
+  `ganttLine` / `ganttSrc`.  `DhtmlxGantt.__data` (entries and links, tools/extract_dhtmlx.py → Extracted/DhtmlxSrc.lean) is tied by
+  kernel-evaluated runs of the translated program on concrete WBSs (Lemmas/DhtmlxSrcCheck.lean, DhtmlxSrcCheckB.lean - a WBS with nested
+  tasks, a milestone, outside predecessors and parents, user attributes named like entry keys; a grid of 72 progress cases; every forest
+  on three tasks with every single link): tests at the level of the kernel, not theorems about every input - imported here, so a
+  translated source that no longer reproduces them breaks this module.  `to_html`, the templates, `__columns` and scales are not
+  translated.  The kernel runs of the Mermaid programs (RenderSrcCheck*.lean) stay imported as regression tests.
 -/
 import PjVerif.Lemmas.RenderSrcA
 import PjVerif.Lemmas.RenderSrcB
+import PjVerif.Lemmas.RenderSrcC
+import PjVerif.Lemmas.DhtmlxSrcCheck
+import PjVerif.Lemmas.DhtmlxSrcCheckB
 import PjVerif.Lemmas.RenderSrcCheck
 import PjVerif.Lemmas.RenderSrcCheckB
 namespace Pj
@@ -37,5 +43,14 @@ theorem C19_source_gantt_task_state (S : PrintSrc.Lib) (V : RenderSrc.View) (pts
 theorem C19_source_gantt_line (S : PrintSrc.Lib) (V : RenderSrc.View) (pts : Nat → RenderSrc.RTask) (hS : S.OK) (F t : Nat) (hF : 2 ≤ F) :
     RenderSrc.interpGanttLine S V pts F t = .ok (.atom (S.s (ganttLine (RenderSrc.toGTask S V (pts t))))) :=
   RenderSrc.interpGanttLine_eq V pts hS F t hF
+
+/-- the translated `MermaidGantt.__src` returns the model's Gantt source: the header lines, then - when there is more than one section (tasks
+    without one form the section '-') - for every section in first-occurrence order its header and the lines of its tasks in WBS order,
+    else the lines of all tasks.  `SecOK`: section values that are equal as Python values are equal as texts and vice versa (true when every
+    `gantt_section` is a str: `secOK_of_strs`) -/
+theorem C19_source_gantt_src (S : PrintSrc.Lib) (V : RenderSrc.View) (pts : Nat → RenderSrc.RTask) (hS : S.OK)
+    (hK : RenderSrc.SecOK S V pts) (F : Nat) (hF : 3 ≤ F) :
+    RenderSrc.interpGanttSrc S V pts F = .ok (.atom (S.s (ganttSrc V.title V.weekends V.tick (RenderSrc.gTasks S V pts)))) :=
+  RenderSrc.interpGanttSrc_eq V pts hS hK F hF
 
 end Pj
